@@ -3,7 +3,7 @@ case (K, f, presentation) into a recorded call of the real modelcheck and have T
 import json
 import random
 
-from common import MachineryError, pmap
+from common import MachineryError, pmap, exc_name
 import pymc
 from pymc import LANGS, to_obj, to_text, mk_kripke, call_mc, T
 
@@ -153,7 +153,7 @@ def mc_event(case):
     try:
         formula = build_formula(case['logic'], fr, case.get('mode', 'obj'))
     except Exception as ex:       # constructing a well-formed formula must not fail
-        out = ('exc', 'construct:' + type(ex).__name__, str(ex)[:200])
+        out = ('exc', 'construct:' + exc_name(ex), str(ex)[:200])
     else:
         F = case.get('F')
         Fa = pymc.present_F(F, name, rng)
